@@ -68,7 +68,8 @@ def make_source(Q, shape, name):
         return Q.from_(inner).select(inner.star).as_(name + "_sq"), name + "_sq", True, None
     if shape == "setop":
         i1, i2 = T(name + "_b1"), T(name + "_b2")
-        return Q.from_(i1).select(i1.star).union(Q.from_(i2).select(i2.star)).as_(name + "_so"), name + "_so", True, None
+        # (its own ORDER BY names a result column: written bare wherever the set operation is embedded)
+        return Q.from_(i1).select(i1.star).union(Q.from_(i2).select(i2.star)).orderby(i1.field("so_ord"), "so_str").as_(name + "_so"), name + "_so", True, None
     if shape == "cte":
         inner = T(name + "_base")
         return r["AliasedQuery"](name + "_cte"), name + "_cte", True, Q.from_(inner).select(inner.star)
@@ -400,6 +401,13 @@ def run_case(case, mon):
     for i, t in enumerate(toks):
         if t.kind == "IDENT":
             pos.setdefault(t.value, []).append(i)
+    for inner_col in ("so_ord", "so_str"):
+        for i in pos.get(inner_col, []):
+            mon.count("references_checked")
+            if qualifier_of(toks, i) is not None:
+                mon.violation("qualified-needlessly:setop-orderby:%s" % case["second"], "the ORDER BY of an embedded set operation is written %s.%s: %r" % (
+                    qualifier_of(toks, i), inner_col, sql[:300]))
+                return
     for col, who, clause in exp:
         occ = pos.get(col, [])
         if not occ:
